@@ -7,7 +7,9 @@ of an element actual or in the base of a section; name clashes between caller an
 declarations (`x(0:)`, `x(5:7)`), assumed shape, 2-D arrays, rank-reducing sections `d(i,:)`; call at
 top level, inside a DO loop (executed twice) or inside an IF.
 Malformed stream: wrong argument count, rank mismatch, early RETURN, EXIT/CYCLE (CodeBlock),
-strided section, SAVEd local, callee using a module variable."""
+strided section, SAVEd local, callee using a module variable.
+Module variables: `g`, `h` and — drawn from the same pool as the locals plus the first fresh-name candidates
+(`t_1`, `t_2`, `i_1_1`, ...) of every local that clashes with a caller local — scalars the caller reads and writes."""
 
 E = 3            # number of elements of an array formal the callee touches per dimension
 
@@ -142,6 +144,29 @@ class Gen:
         loopv = [n_ for n_, b_, _ in locals_ if not b_]
         body = self.body(formals, kinds, locals_, r)
         caller = self.caller_body(actuals, scal, arrays1)
+        # module-level variables named like the FIRST FRESH-NAME CANDIDATES (`t_1`, `t_2`) of the locals that
+        # clash with a caller local (merge must rename those), or like a callee local / pool name; the caller
+        # reads and writes them, so a renamed local that lands on such a name captures the caller's references
+        own_names = {n_ for n_, _ in own}
+        extra = []
+        for ln, lb_, _ in locals_:
+            if ln in own_names and r.random() < 0.6:
+                extra.append(ln + "_1")
+                if r.random() < 0.4:
+                    extra.append(ln + "_2")
+            elif ln not in own_names and r.random() < 0.15:
+                extra.append(ln)                          # module variable named like a (non-clashing) local
+                if r.random() < 0.5:
+                    extra.append(ln + "_1")
+        if r.random() < 0.1:
+            extra.append(r.choice(["q", "k", "w_1", "t_1", "i_1"]))
+        taken = own_names | {n_ for n_, _ in outer} | fnames | {"run", "s", "m"}
+        extra = [e for k_, e in enumerate(extra) if e not in taken and e not in extra[:k_]]
+        if extra:
+            outer = outer + [(e, []) for e in extra]
+            pre = [("assign", e, [], lit(r.randint(3, 9))) for e in extra if r.random() < 0.7]
+            post = [("assign", "t", [], add(var("t"), var(e))) for e in extra]
+            caller = pre + caller + post
         case = {"outer": outer, "own": own, "caller": caller, "formals": formals, "locals": locals_, "body": body,
                 "kinds": kinds, "malformed": malformed or ""}
         if malformed:
